@@ -42,6 +42,8 @@ CONSUMERS = {
     "fmt-q": (DATA_KINDS, None, "print"), "fmt-m": (DATA_KINDS, None, "print"), "fmt-v": (DATA_KINDS, None, "print"),
     "pp": (DATA_KINDS, None, "print"), "pp-depth": (["tuple", "array", "struct", "table", "carray"], None, "print"),
     "marshal": (DATA_KINDS, None, "marshal"), "unmarshal": (["tuple", "btuple", "array", "struct", "table", "wide"], None, "marshal"),
+    "unmarshal-defs": (["tuple"], None, "marshal"), "unmarshal-abstract": (["tuple"], None, "marshal"),
+    "compile-destructure-head": (["btuple"], None, "compile"),
     "freeze": (DATA_KINDS, None, "freeze"), "thaw": (DATA_KINDS, None, "freeze"),
     "gc": (DATA_KINDS, None, "gc"), "gc-closures": (["tuple"], None, "gc"), "gc-fibers": (["tuple"], None, "gc"),
     "gc-fiber-children": (["tuple"], 2 ** 17, "gc"),
@@ -68,12 +70,12 @@ ENTRY_CONSUMERS = {
     "janet_asm1": ["asm", "asm-disasm"], "janet_asm_addenv": ["asm-env"], "doarg_1": ["asm-type"],
     "janet_disasm": ["disasm", "asm-disasm"], "janet_disasm_defs": ["disasm", "asm-disasm"],
     "destructure": ["compile-destructure", "compile-destructure-var", "compile-destructure-param"],
-    "dohead_destructure": ["compile-destructure", "compile-destructure-var"],
+    "dohead_destructure": ["compile-destructure-head"],
     "janet_mark_fiber": ["gc-fibers", "gc-fiber-children"], "janet_mark_function": ["gc-fibers", "gc-closures"],
     "janet_mark_funcenv": ["gc-fibers", "gc-closures"], "janet_mark_funcdef": ["asm-disasm", "disasm"],
     "build_struct_type": ["ffi-struct"], "decode_ffi_type": ["ffi-struct"], "janet_ffi_read_one": ["ffi-struct-chain"],
     "janet_ffi_write_one": ["ffi-write-chain"], "sysv64_classify_ext": ["ffi-sig-chain"],
-    "unmarshal_one_def": ["unmarshal", "asm-disasm"],
+    "unmarshal_one_def": ["unmarshal-defs"], "unmarshal_one_abstract": ["unmarshal-abstract"],
 }
 GROUP_OF_PREFIX = [("janet_mark", "gc"), ("marshal_", "marshal"), ("unmarshal_", "marshal"), ("janetc_", "compile"),
                    ("peg_", "peg"), ("spec_", "peg"), ("janet_pretty", "print"), ("print_jdn", "print"),
